@@ -61,11 +61,18 @@ func newScheduler(in *Interp) *scheduler {
 
 func (in *Interp) spawn(fn value, args []value, pos token.Pos) {
 	s := in.sched
+	live := 0
+	for _, og := range s.gs {
+		if !og.done {
+			live++
+		}
+	}
+	if live >= 64 || len(s.gs) >= 8192 {
+		// checked before the goroutine is registered: killAll waits for every registered goroutine
+		abort(abUnwind, "more than 64 live goroutines (or 8192 in total) on one path")
+	}
 	g := &goroutine{id: len(s.gs), wake: make(chan struct{}, 1), exited: make(chan struct{}), what: fmt.Sprint(fnName(fn))}
 	s.gs = append(s.gs, g)
-	if len(s.gs) > 64 {
-		abort(abUnwind, "more than 64 goroutines")
-	}
 	go func() {
 		<-g.wake
 		defer close(g.exited)
